@@ -3,10 +3,10 @@
 for ID in "$@"; do
   WT=/tmp/wt/$(echo $ID | tr 'C' 'c')
   git -C $WT checkout -q -- . ; git -C $WT checkout -q --detach $(git -C /repo rev-parse HEAD)
-  for d in /tmp/seeded/$ID/m*/; do
+  for d in ${SEED_BASE:-/tmp/seeded}/$ID/m*/; do
     [ -f $d/patch.diff ] || continue
     if git -C $WT apply $d/patch.diff 2>/dev/null; then
-      r=$(cd $WT && PYTHONPATH=$WT /venv/bin/python -m pytest -q -p no:cacheprovider --timeout=900 fiddle --deselect fiddle/_src/codegen/auto_config/ir_to_cst_test.py::IrToCstTest::test_code_for_expr_jax_partition_spec -n 6 2>&1 | grep -E "passed|failed|error" | tail -1)
+      r=$(cd $WT && PYTHONPATH=$WT /venv/bin/python -m pytest -q -p no:cacheprovider --timeout=900 fiddle --deselect fiddle/_src/codegen/auto_config/ir_to_cst_test.py::IrToCstTest::test_code_for_expr_jax_partition_spec -n ${NPROC:-6} 2>&1 | grep -E "passed|failed|error" | tail -1)
       d1=$(cd $WT && PYTHONPATH=$WT /venv/bin/python $d/demo.py >/dev/null 2>&1; echo $?)
       git -C $WT checkout -q -- .
       d0=$(cd $WT && PYTHONPATH=$WT /venv/bin/python $d/demo.py >/dev/null 2>&1; echo $?)
